@@ -315,7 +315,11 @@ def ccsds_generator(
     elif isinstance(binary_data, bytes):
         read_buffer = binary_data
         total_length_bytes = len(read_buffer)
-        read_bytes_from_source = None  # No data to read, we've filled the read_buffer already
+
+        def read_bytes_from_source(_):
+            """No data to read, we've filled the read_buffer already"""
+            return b""
+
         logger.info(f"Creating packet generator from a bytes object. Total length is {total_length_bytes} bytes")
     elif isinstance(binary_data, io.TextIOWrapper):
         raise OSError("Packet data file opened in TextIO mode. You must open packet data in binary mode.")
@@ -346,6 +350,12 @@ def ccsds_generator(
             if not result:  # If there is verifiably no more data to add, break
                 break
             read_buffer += result
+        if len(read_buffer) - current_pos < skip_header_bytes + RawPacketData.HEADER_LENGTH_BYTES:
+            # The source is exhausted before a complete header: there are no more packets
+            if len(read_buffer) - current_pos > 0:
+                logger.warning(f"Source ended with {len(read_buffer) - current_pos} trailing bytes that do not "
+                               "make up a complete packet header. Discarding them.")
+            break
         # Skip the header bytes
         current_pos += skip_header_bytes
         header_bytes = read_buffer[current_pos:current_pos + RawPacketData.HEADER_LENGTH_BYTES]
@@ -362,6 +372,11 @@ def ccsds_generator(
             if not result:  # If there is verifiably no more data to add, break
                 break
             read_buffer += result
+        if len(read_buffer) - current_pos < n_bytes_packet:
+            # The source is exhausted part-way through a packet: never yield an incomplete packet
+            logger.warning(f"Source ended part-way through a packet: expected {n_bytes_packet} bytes but only "
+                           f"{len(read_buffer) - current_pos} are available. Discarding the incomplete packet.")
+            break
 
         # Consider it a counted packet once we've verified that we have read the full packet and parsed the header
         # Update the number of packets and bytes parsed
